@@ -250,6 +250,16 @@ fn check_desc(family: &'static str, index: u64, r: &mut Rng, d: &DDesc) {
     cx.sample_n(4, || json!({"family": family, "index": index, "diagram": desc, "rule_applications_and_rewrites": n}));
 }
 
+/// simplifiers only (no per-rule sweep): used for diagrams too big for all argument tuples
+fn simps_only(family: &'static str, index: u64, r: &mut Rng, d: &DDesc) {
+    let cx = ctx();
+    let desc = d.to_json();
+    let scr = if r.chance(0.3) { Some(r.next_u64()) } else { None };
+    let mut n = simps_on(family, index, "vec", &|| d.build::<quizx::vec_graph::Graph>(scr).0, &desc);
+    n += simps_on(family, index, "hash", &|| d.build::<quizx::hash_graph::Graph>(scr).0, &desc);
+    cx.case(family, if n > 0 && d.has_vars() { Some(d.hash()) } else { None });
+}
+
 // ---------------------------------------------------------------------------------
 // measurement circuits
 // ---------------------------------------------------------------------------------
@@ -362,6 +372,13 @@ pub fn run() {
         // small scalar-ish diagrams: isolated spiders and pairs (remove_single / remove_pair paths)
         let d = gen_random(r, &DiagParams { max_spiders: 3, max_bnd: 1, pool: PhasePool::Exact, graph_like: false, bare_wires: false, var_prob: 0.8 });
         check_desc("vars-pauli-pairs", i, r, &d);
+    });
+    let nls = t.pick(40usize, 1_500usize);
+    par_cases("vars-long-sparse", nls, move |r, i| {
+        // few variables spread over many spiders (assignments stay <= 2^4)
+        let gl = r.chance(0.5);
+        let d = gen_long_sparse(r, 30, 80, PhasePool::CliffordHeavy, gl, 0.08);
+        simps_only("vars-long-sparse", i, r, &d);
     });
     let (nq, depth, nc) = t.pick((3usize, 12usize, 2000usize), (5usize, 30usize, 40_000usize));
     par_cases("measure-circuits", nc, move |r, i| {
